@@ -16,6 +16,7 @@ class Model:
         self.processes = []      # dict(name, templ, args=[marker or global name]) ; or direct template names
         self.system = []         # process names in system line
         self.priorities = False
+        self.shadowed = []       # globals with the name of a select variable
         self.text = {}           # (kind, marker) -> label text overriding label_text (C20 variants)
 
 
@@ -64,6 +65,11 @@ def gen(rng, ntempl=None, allow_anon=True, branchpoints=True, xta_common=False):
                 E['labels'].append((k, m))
                 if k == 'sync':
                     M.chans.append('c%d' % m)
+                if k == 'select':
+                    # sometimes the select variable shadows a global or a template local of the same name
+                    r = rng.random()
+                    if r < 0.2: M.shadowed.append('s%d' % m)
+                    elif r < 0.35: T['decl'].append('s%d' % m)
             T['edges'].append(E)
         M.templates.append(T)
     # processes: full and partial instantiations
@@ -104,7 +110,7 @@ def ltext(M, kind, m):
 
 
 def global_decl(M):
-    d = 'clock x;\n' + ''.join('int %s;\n' % g for g in M.globals) + ''.join('chan %s;\n' % c for c in M.chans)
+    d = 'clock x;\n' + ''.join('int %s;\n' % g for g in M.globals + M.shadowed) + ''.join('chan %s;\n' % c for c in M.chans)
     return d
 
 
@@ -181,11 +187,15 @@ def render_xta(M):
         out.append('init %s;\n' % loc_name(T, T['init']))
         if T['edges']:
             es = []
-            for e in T['edges']:
+            prev = None
+            for ei, e in enumerate(T['edges']):
                 labs = ''
                 for k, m in e['labels']:
                     labs += {'select': 'select %s; ', 'guard': 'guard %s; ', 'sync': 'sync %s; ', 'update': 'assign %s; ', 'prob': 'probability %s; '}[k] % ltext(M, k, m)
-                es.append('%s %s %s { %s}' % (loc_name(T, e['src']), '->' if e['control'] else '-u->', loc_name(T, e['dst']), labs))
+                # the chained shorthand "A -> B { }, -> C { }" repeats the source of the previous transition (it has no probability section)
+                chained = prev == e['src'] and not any(k == 'prob' for k, _ in e['labels']) and (hash((T['name'], ei)) % 2 == 0)
+                es.append('%s%s %s { %s}' % ('' if chained else loc_name(T, e['src']) + ' ', '->' if e['control'] else '-u->', loc_name(T, e['dst']), labs))
+                prev = e['src']
             out.append('trans ' + ',\n'.join(es) + ';\n')
         out.append('}\n')
     out.append(system_text(M))
